@@ -122,6 +122,7 @@ type c08Run struct {
 	dialGate             chan struct{}
 	dialsStarted         int32
 	dialsDone            int32
+	dialConnDone         int32 // dial goroutines of the transport (dialConnFor) that have finished
 	hsDone               int32
 	infra                string
 }
